@@ -4,7 +4,7 @@ from runner import Stream
 import vlib, gen_manifest, fuzzgen, render
 from parsers_common import model_lines, pkgs_of, norm_py
 
-PROP_MODULES = ["Vlsp.Props.C04", "Vlsp.Props.C04Layout", "Vlsp.Props.C04LayoutToml", "Vlsp.Props.C04LayoutPy"]
+PROP_MODULES = ["Vlsp.Props.C04", "Vlsp.Props.C04Layout", "Vlsp.Props.C04LayoutToml", "Vlsp.Props.C04LayoutPy", "Vlsp.Props.C04Walks"]
 RULE = ("(a) the seven Parser::parse implementations vs the Lean parser models run on the SAME syntax tree (the tree tree-sitter really "
         "produces, dumped by the harness; go.mod: raw text; PEP 508 answers of the real library as an input): rendered manifests under "
         "every layout choice plus grammar-aware mutations; (b) the property itself on the implementation: manifests rendered from an "
